@@ -275,6 +275,8 @@ pub fn run(_tier: Tier) -> Report {
                         what: format!("{} [{:?}]", what, c),
                         replay: json!({"request": cfg.to_json(), "front": c.front}),
                     });
+                } else if ord % 211 == 0 {
+                    crate::engine::validate_case(&mut rep, replay, json!({"request": cfg.to_json(), "front": c.front}));
                 }
             }
             rep
